@@ -33,6 +33,10 @@ ASSUMPTIONS = ['"identical text up to the order of declarations and the instance
                'declaration lines per module and renames hex suffixes by first appearance']
 PROBES = ['extended_between_generations', 'repeat_after_sim', 'repeat_after_other_circuit', 'repeat_after_crash', 'child_via_two_ancestors', 'fresh_vs_same_generator', 'sim_after_generation']
 
+INLINED = {'And2', 'Or2', 'Xor2', 'Nand2', 'Nor2', 'Not', 'Buf', 'Bit', 'Range', 'BitsLSBF', 'BitsMSBF', 'ConcatenateMSBF',
+           'ConcatenateLSBF', 'Repeat', 'Constant', 'Mux2', 'Equal', 'EqualConstant', 'And', 'Or', 'Nor', 'Sub', 'Mul', 'SignedMul',
+           'ShiftLeftConstant', 'ShiftRightConstant', 'SignExtend', 'ZeroExtend'}
+
 HEXID = re.compile(r'_(?:0x)?[0-9a-f]{9,16}\b')
 
 
@@ -67,10 +71,17 @@ def gen(rs, tier, index):
     circuits = []
     for c in range(ncirc):
         n = rng.choice([3, 5, 8]) if tier == 'quick' else rng.choice([5, 10, 20])
-        d = netlist.gen_design(rng, n, comb, hier_depth=rng.choice([0, 1, 2]), feedback=rng.choice([0, 0.2]),
-                               seq_kinds=seqk, seq_frac=rng.choice([0.2, 0.4]), maxw=33)
+        if rng.random() < 0.25:
+            # a flat module whose children are all inlined: the module itself is the last object a generation visits
+            flat = [k for k in comb if k.name in INLINED]
+            d = netlist.gen_design(rng, n, flat, hier_depth=0, maxw=33)
+            flat_mode = True
+        else:
+            d = netlist.gen_design(rng, n, comb, hier_depth=rng.choice([0, 1, 2]), feedback=rng.choice([0, 0.2]),
+                                   seq_kinds=seqk, seq_frac=rng.choice([0.2, 0.4]), maxw=33)
+            flat_mode = False
         apply_exclusions(d, kf, rng)
-        if rng.random() < 0.4 and len(d['order']) > 1:
+        if rng.random() < (0.8 if flat_mode else 0.4) and len(d['order']) > 1:
             d['late'] = rng.randint(1, len(d['order']) - 1)      # built up to here first; op 'extend' adds the rest later
         circuits.append(d)
     hr = rs.get('history')
@@ -102,7 +113,17 @@ def run(scn, log, st):
         t = netlist.Built(d).build(first)
         with quiet():
             bs, ts = b.hw.getSimulator(), t.hw.getSimulator()
-        circ.append({'d': d, 'b': b, 't': t, 'bs': bs, 'ts': ts, 'gen': py4hw.VerilogGenerator(b.dut), 'generated': False})
+        reftext = None
+        if first is not None:
+            # text of the complete circuit from an object that is never generated from again; produced up front so
+            # that no generator is created (and no module-level state touched) between the extension and the next request
+            ref = netlist.Built(d).build(first).build()
+            try:
+                with quiet():
+                    reftext = canonical(py4hw.VerilogGenerator(ref.dut).getVerilogForHierarchy())
+            except Exception:
+                reftext = None
+        circ.append({'d': d, 'b': b, 't': t, 'bs': bs, 'ts': ts, 'gen': py4hw.VerilogGenerator(b.dut), 'generated': False, 'reftext': reftext})
     texts = {}          # request key -> (canonical text, op index, last kind of intervening op)
     since = {}          # request key -> set of op kinds since it was last issued
     for si, op in enumerate(scn['ops'], 1):
@@ -135,14 +156,9 @@ def run(scn, log, st):
             for k in [k for k in texts if k[1] == op['c']]:
                 del texts[k]
                 since.pop(k, None)
-            ref = netlist.Built(c['d']).build(c['d']['order'][:c['d']['late']]).build()
-            try:
-                with quiet():
-                    rt = py4hw.VerilogGenerator(ref.dut).getVerilogForHierarchy()
-                texts[('hier', op['c'])] = (canonical(rt), 'reference circuit', None, True)
+            if c['reftext'] is not None:
+                texts[('hier', op['c'])] = (c['reftext'], 'reference circuit', None, True)
                 since[('hier', op['c'])] = set()
-            except Exception:
-                pass
             st.fault('late_add')
             st.probe('extended_between_generations')
             continue
@@ -161,6 +177,7 @@ def run(scn, log, st):
             log.add(si, 'sim', h64(sorted(b.values().items())))
             continue
         g = py4hw.VerilogGenerator(b.dut) if op.get('fresh') else c['gen']
+        key = ('pending', si)
         try:
             with quiet():
                 if kind == 'gen_hier':
@@ -177,7 +194,9 @@ def run(scn, log, st):
                     key = ('child', op['c'], o.getFullPath())
                     text = g.getVerilog(obj=o)
         except Exception as e:
-            key = ('refused',) + tuple(str(x) for x in (kind, op['c'], op.get('pick')))
+            # a refusal is a result like any other: the same request must be refused every time
+            if kind == 'gen_hier':
+                key = ('hier', op['c'])
             text = 'REFUSED:%s' % type(e).__name__
         c['generated'] = True
         can = canonical(text)
